@@ -76,3 +76,5 @@ package deadline
 //@ lockset C19: Deadline
 
 //@ property C09: New, Deadline.timeout, Deadline.Set, Deadline.Done, Deadline.Err, Deadline.Deadline, Deadline.fire
+// read deadlines of every connection type are built on Deadline
+//@ property C10: New, Deadline.timeout, Deadline.Set, Deadline.Done, Deadline.Err, Deadline.Deadline, Deadline.fire
